@@ -101,3 +101,18 @@ def randint_range(x):
     if hi is None:
         lo, hi = const(0), lo  # a single bound is the exclusive upper end
     return lo, hi
+
+
+def denominators(t):
+    """terms the value is divided by (a / b, scalar division, negative powers, reciprocal)"""
+    from fractions import Fraction
+
+    out = []
+    for x in walk_all(t):
+        if x.op in ("div", "sdiv", "floordiv", "mod") and len(x.args) == 2:
+            out.append(x.args[1])
+        elif x.op == "pow" and len(x.args) == 2 and isinstance(x.args[1], Term) and x.args[1].op == "const" and isinstance(x.args[1].args[0], (int, float, Fraction)) and x.args[1].args[0] < 0:
+            out.append(x.args[0])
+        elif x.op in ("reciprocal", "inv1"):
+            out.append(x.args[0])
+    return out
